@@ -1,3 +1,5 @@
 import PfVerif.Audit.Tool
 import PfVerif.Props.C07
+import PfVerif.Lemmas.C07PDE
 #audit_module PfVerif.Props.C07
+#audit_module_ns PfVerif.Lemmas.C07PDE PfVerif.C07PDE
